@@ -51,8 +51,34 @@ def bag_plus(bags: T, k: Any, x: Any) -> T:
 # =====================================================================================================================
 # (1) _ds_usage_analysis
 # =====================================================================================================================
+def usage_roles() -> Dict[str, str]:
+    """Which local of _ds_usage_analysis plays which role, read off the returned DatasetSchedule(...) and the
+    initialisations (so that renamed locals are still found)."""
+    R = {"LC": "last_consumer", "DEL": "deletion", "INS": "insertion", "AO": "all_outputs", "PD": "persistent_datasets",
+         "GS": "global_set", "GI": "global_inputs"}
+    fn = find_def(REL, USAGE)
+    if not isinstance(fn, ast.FunctionDef):
+        return R
+    ret = next((st for st in reversed(fn.body) if isinstance(st, ast.Return)), None)
+    if ret is not None and isinstance(ret.value, ast.Call):
+        for kw in ret.value.keywords:
+            v = kw.value
+            inner = v.args[0] if isinstance(v, ast.Call) and len(v.args) == 1 else v
+            if isinstance(inner, ast.Name) and kw.arg in ("insertion", "deletion", "global_inputs", "persistent", "all_outputs"):
+                R[{"insertion": "INS", "deletion": "DEL", "global_inputs": "GI", "persistent": "PD", "all_outputs": "AO"}[kw.arg]] = inner.id
+    inits = LoopStep(REL, USAGE, 0).inits if find_def(REL, USAGE) is not None else {}
+    dicts = [n for n, v in inits.items() if v == "{}"]
+    sets = [n for n, v in inits.items() if v == "set()" and n != R["AO"]]
+    if len(dicts) == 1:
+        R["LC"] = dicts[0]
+    if len(sets) == 1:
+        R["GS"] = sets[0]
+    return R
+
+
 def ob_usage_analysis(chk: Check) -> None:  # noqa: C901
     f = F(USAGE)
+    R = usage_roles()
     chk.under_contract(f)
     s = Sym()
     eng = s.eng
@@ -69,13 +95,14 @@ def ob_usage_analysis(chk: Check) -> None:  # noqa: C901
         return And(Iff(m.has(x, initial), ra), Implies(ra, And(Eq(m.at(x, initial), rl), Le(rl, k))))
 
     def post1(p: PathResult, init: Dict[str, Any]) -> Any:
-        if p.kind != "return" or not isinstance(p.value, dict) or not isinstance(p.value.get("last_consumer"), NameIntMap):
+        if p.kind != "return" or not isinstance(p.value, dict) or not isinstance(p.value.get(R["LC"]), NameIntMap):
             return False
-        m = p.value["last_consumer"]
+        m = p.value[R["LC"]]
         ra2, rl2 = Or(r_any, Eq(n, x)), Ite(Eq(n, x), k, r_last)
         return And(Eq(m.t["dom"], sto(m.t0["dom"], n, True)), Eq(m.t["val"], sto(m.t0["val"], n, k)), inv1(m, ra2, rl2),
-                   Implies(r_any, Ge(rl2, r_last)), frame(p, init, {"last_consumer"}))
-    step_ob(chk, eng, ls1, {"last_consumer": lc, "key": k, "input_name": n}, f, "last-reader::loop-step",
+                   Implies(r_any, Ge(rl2, r_last)), frame(p, init, {R["LC"]}))
+    step_ob(chk, eng, ls1, {R["LC"]: lc, ls1.target(0, "key"): k, ls1.target(0, "input_name", inner=True): n}, f,
+            "last-reader::loop-step",
             "first loop, one iteration for a pair (statement key, name input_name it reads) from ANY last_consumer: "
             "last_consumer' = last_consumer[input_name := key]; invariant for every name x (ghosts: x was read by a pair "
             "processed so far; key r of the last such pair; pairs come by non-decreasing key, so r <= key): x in last_consumer "
@@ -104,7 +131,7 @@ def ob_usage_analysis(chk: Check) -> None:  # noqa: C901
         def post2(p: PathResult, init: Dict[str, Any], kind: str = kind, tgt: Any = tgt) -> Any:
             if p.kind != "return" or not isinstance(p.value, dict):
                 return False
-            dl, ao, pd = p.value.get("deletion"), p.value.get("all_outputs"), p.value.get("persistent_datasets")
+            dl, ao, pd = p.value.get(R["DEL"]), p.value.get(R["AO"]), p.value.get(R["PD"])
             if not (isinstance(dl, IntBagMap) and isinstance(ao, NameBag) and isinstance(pd, NameBag)):
                 return False
             want_pd = sto(pd.t0["cnt"], o, 1) if kind == "pers" else pd.t0["cnt"]
@@ -112,9 +139,9 @@ def ob_usage_analysis(chk: Check) -> None:  # noqa: C901
                        Eq(dl.t["dom"], sto(dl.t0["dom"], tgt, True)), Eq(pd.t["cnt"], want_pd),
                        inv2(dl, ao, pd, Or(produced, Eq(o, x)), Ite(Eq(o, x), tgt, del_at),
                             Or(pers_x, And(kind == "pers", Eq(o, x)))),
-                       frame(p, init, {"deletion", "all_outputs", "persistent_datasets", "reference", "ds_name"}))
-        step_ob(chk, eng, ls2, {"last_consumer": lc2, "deletion": deletion, "all_outputs": all_out,
-                                "persistent_datasets": persistent, "key": k, "statement": s.statement(kind, o)},
+                       frame(p, init, {R["DEL"], R["AO"], R["PD"]}))
+        step_ob(chk, eng, ls2, {R["LC"]: lc2, R["DEL"]: deletion, R["AO"]: all_out, R["PD"]: persistent,
+                                ls2.target(0, "key"): k, ls2.target(1, "statement"): s.statement(kind, o)},
                 f, f"outputs::loop-step::{kind}",
                 "second loop, one iteration on a statement (name o, " + ("persistent" if kind == "pers" else "not persistent") +
                 ") from ANY deletion / all_outputs / persistent_datasets: all_outputs' = all_outputs U {o}; o is appended once "
@@ -147,7 +174,7 @@ def ob_usage_analysis(chk: Check) -> None:  # noqa: C901
     def post3(p: PathResult, init: Dict[str, Any]) -> Any:
         if p.kind != "return" or not isinstance(p.value, dict):
             return False
-        dl, ins, gs, gi = (p.value.get(nm) for nm in ("deletion", "insertion", "global_set", "global_inputs"))
+        dl, ins, gs, gi = (p.value.get(R[nm]) for nm in ("DEL", "INS", "GS", "GI"))
         if not (isinstance(dl, IntBagMap) and isinstance(ins, IntBagMap) and isinstance(gs, NameBag) and isinstance(gi, NameBag)):
             return False
         hit = And(Not(all_out.has(el, True)), Not(gset.has(el, True)))
@@ -159,9 +186,10 @@ def ob_usage_analysis(chk: Check) -> None:  # noqa: C901
                    Eq(ins.t["bags"], Ite(hit, bag_plus(ins.t0["bags"], k, el), ins.t0["bags"])),
                    inv3(dl, ins, gs, gi, g2, f2),
                    Implies(And(Eq(el, x), Not(all_out.has(x, True))), And(g2, Le(f2, k))),       # every reader comes at or after `first`
-                   frame(p, init, {"deletion", "insertion", "global_set", "global_inputs"}))
-    step_ob(chk, eng, ls3, {"last_consumer": lc3, "deletion": deletion, "insertion": insertion, "all_outputs": all_out,
-                            "global_set": gset, "global_inputs": ginp, "key": k, "element": el}, f, "global-inputs::loop-step",
+                   frame(p, init, {R["DEL"], R["INS"], R["GS"], R["GI"]}))
+    step_ob(chk, eng, ls3, {R["LC"]: lc3, R["DEL"]: deletion, R["INS"]: insertion, R["AO"]: all_out, R["GS"]: gset,
+                            R["GI"]: ginp, ls3.target(0, "key"): k, ls3.target(0, "element", inner=True): el}, f,
+            "global-inputs::loop-step",
             "third loop, one iteration for a pair (statement key, name element it reads) from ANY state: if element is not "
             "an output and was not met before, it is added to global_set / global_inputs, appended once to insertion[key] and "
             "once to deletion[last_consumer[element]]; else nothing changes.  Invariant for every name x and slot d (ghosts: x "
@@ -186,8 +214,8 @@ def ob_usage_analysis(chk: Check) -> None:  # noqa: C901
     body = [st for st in fn.body if not (isinstance(st, ast.Expr) and isinstance(st.value, ast.Constant))]
     inits = {ast.unparse(t): ast.unparse(st.value) for st in body if isinstance(st, (ast.Assign, ast.AnnAssign))
              and st.value is not None for t in (st.targets if isinstance(st, ast.Assign) else [st.target])}
-    want = {"deletion": "defaultdict(list)", "insertion": "defaultdict(list)", "all_outputs": "set()",
-            "persistent_datasets": "[]", "last_consumer": "{}", "global_inputs": "[]", "global_set": "set()"}
+    want = {R["DEL"]: "defaultdict(list)", R["INS"]: "defaultdict(list)", R["AO"]: "set()", R["PD"]: "[]", R["LC"]: "{}",
+            R["GI"]: "[]", R["GS"]: "set()"}
     probs = [f"{a} = {inits.get(a)}" for a, v in want.items() if inits.get(a) != v]
     loops = [st for st in body if isinstance(st, ast.For)]
     if [ast.unparse(l.iter) for l in loops] != ["self.dependencies.items()"] * 3:
@@ -197,8 +225,8 @@ def ob_usage_analysis(chk: Check) -> None:  # noqa: C901
     if [x_ for x_ in order if x_ not in ("init", "For", "Return")]:
         probs.append(f"unexpected statements {order}")
     ret = body[-1] if body and isinstance(body[-1], ast.Return) else None
-    want_ret = ("DatasetSchedule(insertion=dict(insertion), deletion=dict(deletion), global_inputs=global_inputs, "
-                "persistent=persistent_datasets, all_outputs=sorted(all_outputs))")
+    want_ret = (f"DatasetSchedule(insertion=dict({R['INS']}), deletion=dict({R['DEL']}), global_inputs={R['GI']}, "
+                f"persistent={R['PD']}, all_outputs=sorted({R['AO']}))")
     if ret is None or ast.unparse(ret.value) != want_ret:
         probs.append(f"returns {ast.unparse(ret.value) if ret is not None and ret.value is not None else None}")
     for i, st in enumerate(body):
@@ -213,3 +241,551 @@ def ob_usage_analysis(chk: Check) -> None:  # noqa: C901
         decide_by_native(ob, N.schedule, key_sched)
     else:
         ob.status, ob.detail = DISCHARGED, "initialisations, three loops in order, DatasetSchedule(...) as expected"
+
+
+# =====================================================================================================================
+# (2) the executor: one generic iteration of every loop, events of every path
+# =====================================================================================================================
+IO = "duckdb_transpiler/io/_io.py"
+Event = Tuple[str, Any]
+
+
+class Exec:
+    """Shared symbolic world of the executor obligations (one engine: the ghost step uses the path conditions)."""
+
+    def __init__(self) -> None:
+        import C14
+        self.C14 = C14
+        eng = self.eng = C14.new_engine()                 # harness of checks/C14.py (recording connection, folder, sorted)
+        self.conn = C14.RecConn()
+        self.s = eng.sym_int("statement_num")
+        self.rop = eng.sym_bool("return_only_persistent")
+        self.x = eng.sym_str("probe.x")
+        self.insertion = IntBagMap(eng, "insertion", default=False)
+        self.deletion = IntBagMap(eng, "deletion", default=False)
+        self.global_inputs = NameBag(eng, "global_inputs", kind="list")
+        self.persistent = NameBag(eng, "persistent", kind="list")
+        sched_cls = eng.lookup_global("AST/DAG/_models.py", "DatasetSchedule")
+        self.sched = ObjV(sched_cls, {"insertion": self.insertion, "deletion": self.deletion,
+                                      "global_inputs": self.global_inputs, "persistent": self.persistent,
+                                      "all_outputs": Opaque("all_outputs")})
+        self.input_datasets = NameObjMap(eng, "input_datasets", value=lambda k: ObjV("Dataset", {"components": ("components-of", k)}))
+        self.path_dict = NameObjMap(eng, "path_dict", value=lambda k: ("path-of", k))
+        self.dataframe_dict = NameObjMap(eng, "dataframe_dict", value=lambda k: ("frame-of", k))
+        self.results = NameObjMap(eng, "results")
+        self.tokens = {n: ObjV("token", {"_name": n}) for n in ("output_folder", "output_datasets", "output_scalars",
+                                                                "representation", "output_format")}
+
+        def c_load(e: Engine, conn: Any = None, components: Any = None, dataset_name: Any = None, file_path: Any = None) -> Any:
+            e.effects.append(("load", dataset_name, "csv" if file_path is not None else "empty", components))
+            return None
+
+        def c_register(e: Engine, conn: Any, dataframes: Any, input_datasets: Any) -> Any:
+            for k_ in dataframes:
+                e.effects.append(("load", k_, "frame", input_datasets))
+            return None
+
+        def c_fetch(e: Engine, conn: Any = None, result_name: Any = None, **kw: Any) -> Any:
+            e.effects.append(("fetch", result_name, kw))
+            return ("fetched", result_name)
+        eng.contracts[(IO, "load_datapoints_duckdb")] = c_load
+        eng.contracts[(IO, "register_dataframes")] = c_register
+        eng.contracts[(EXE, "fetch_result")] = c_fetch
+        self.colls: List[SymColl] = [self.insertion, self.deletion, self.global_inputs, self.persistent, self.input_datasets,
+                                     self.path_dict, self.dataframe_dict, self.results]
+
+    def reset(self, _e: Any = None) -> None:
+        for c in self.colls:
+            c.reset()
+
+    def events(self, p: PathResult, names: Sequence[Any], sql: Any = None) -> List[Event]:
+        """The table-store events of one path, in order: load / create / fetch / drop / store (into results)."""
+        out: List[Event] = []
+        for ev in p.effects:
+            if ev[0] == "load":
+                out.append(("load", ev[1]))
+            elif ev[0] == "fetch":
+                out.append(("fetch", ev[1]))
+            elif ev[0] == "stored":
+                out.append(("store", ev[1]))
+            elif ev[0] == "execute":
+                q = ev[1]
+                hit = None
+                for nm in names:
+                    if is_sym(q) and q.sx == smt.Concat('DROP TABLE IF EXISTS "', nm, '"').sx:
+                        hit = ("drop", nm)
+                    elif sql is not None and is_sym(q) and q.sx == smt.Concat('CREATE TABLE "', nm, '" AS ', sql).sx:
+                        hit = ("create", nm)
+                out.append(hit or ("unrecognised-statement", q))
+            elif ev[0] in ("load_scheduled", "cleanup_scheduled"):
+                out.append((ev[0], ev[1]))
+        return out
+
+
+def _kinds(evs: Sequence[Event]) -> List[str]:
+    return [e[0] for e in evs]
+
+
+def explore_fn(ex: Exec, qual: str, kwargs: Dict[str, Any]) -> List[PathResult]:
+    eng = ex.eng
+    fn = eng.func(EXE, qual)
+    results = kwargs.get("results")
+
+    def setup(_e: Engine) -> None:
+        ex.reset()
+    paths = eng.explore(fn, [], kwargs, setup=setup)
+    return paths
+
+
+def ob_executor(chk: Check) -> None:  # noqa: C901
+    fq = F("execute_queries", EXE)
+    fl = F("load_scheduled_datasets", EXE)
+    fc = F("cleanup_scheduled_datasets", EXE)
+    for f_ in (fq, fl, fc):
+        chk.under_contract(f_)
+    chk.under_contract(F("fetch_result", EXE), "assumed")
+    chk.under_contract(F("load_datapoints_duckdb", IO), "assumed")
+    chk.under_contract(F("register_dataframes", IO), "assumed")
+    key_exec = "execute_queries::history"
+    try:
+        ex = Exec()
+    except Exception as e:  # noqa: BLE001
+        ob = chk.ob(f"{fq}::harness", fq, "executor harness (imported from checks/C14.py)")
+        ob.status, ob.detail = UNDECIDED, f"{type(e).__name__}: {e}"
+        return
+    eng, s, x, rop = ex.eng, ex.s, ex.x, ex.rop
+    # the stores into `results` are made visible as effects (the map is reset between paths)
+    orig_set = ex.results._pyvc_setitem
+
+    def rec_set(e: Engine, key: Any, v: Any) -> None:
+        e.effects.append(("stored", key, v))
+        orig_set(e, key, v)
+    ex.results._pyvc_setitem = rec_set  # type: ignore[method-assign]
+
+    # ---- load_scheduled_datasets: one generic element of insertion[statement_num] --------------------------------------------
+    load_paths: List[PathResult] = []
+    for pd_ in (ex.path_dict, None):
+        try:
+            ps = explore_fn(ex, "load_scheduled_datasets", {
+                "conn": ex.conn, "statement_num": s, "ds_analysis": ex.sched, "path_dict": pd_,
+                "dataframe_dict": ex.dataframe_dict, "input_datasets": ex.input_datasets})
+        except Exception as e:  # noqa: BLE001
+            ob = chk.ob(f"{fl}::explore", fl, "symbolic execution of load_scheduled_datasets")
+            ob.status, ob.detail = UNDECIDED, f"{type(e).__name__}: {e}"
+            decide_by_native(ob, N.executor, key_exec)
+            return
+        for p in ps:
+            p.with_paths = pd_ is not None  # type: ignore[attr-defined]
+        load_paths += ps
+    m_load = eng.decls.const("insertion.elem1", STR)
+
+    def post_load(p: PathResult) -> Any:
+        if p.kind != "return":
+            return False
+        evs = ex.events(p, [m_load])
+        iterated = any(is_sym(c) and "insertion.elem1" in c.sx for c in p.pc)
+        if not iterated:
+            return And(not evs, Not(ex.insertion.has(s, True)))
+        is_table = ex.input_datasets.has(m_load, True)
+        if _kinds(evs) not in ([], ["load"]):
+            return False
+        if not evs:
+            return Not(is_table)
+        return And(is_table, Eq(evs[0][1], m_load))
+    run_discharge(chk, eng, fl, "one-load-per-scheduled-input-table",
+                  "statement_num has no insertion entry => nothing happens; otherwise, for a generic element ds_name of "
+                  "insertion[statement_num]: exactly one load of ds_name (CSV path, registered frame or empty table) when it is "
+                  "an input dataset, nothing when it is not (input scalars are not tables); nothing else is loaded, created, "
+                  "fetched or dropped   [whole real function, path_dict given / None]",
+                  load_paths, [], post_load, N.executor, key_exec, site=False)
+
+    # ---- cleanup_scheduled_datasets: one generic element of deletion[statement_num] ------------------------------------------
+    try:
+        clean_paths = explore_fn(ex, "cleanup_scheduled_datasets", {
+            "conn": ex.conn, "statement_num": s, "ds_analysis": ex.sched, "output_folder": ex.tokens["output_folder"],
+            "output_datasets": ex.tokens["output_datasets"], "output_scalars": ex.tokens["output_scalars"],
+            "results": ex.results, "return_only_persistent": rop, "representation": ex.tokens["representation"],
+            "output_format": ex.tokens["output_format"]})
+    except Exception as e:  # noqa: BLE001
+        ob = chk.ob(f"{fc}::explore", fc, "symbolic execution of cleanup_scheduled_datasets")
+        ob.status, ob.detail = UNDECIDED, f"{type(e).__name__}: {e}"
+        decide_by_native(ob, N.executor, key_exec)
+        return
+    m_clean = eng.decls.const("deletion.elem1", STR)
+    is_gi = ex.global_inputs.has(m_clean, True)
+    wanted = Or(Not(rop), ex.persistent.has(m_clean, True))
+
+    def post_clean(p: PathResult) -> Any:
+        if p.kind != "return":
+            return False
+        evs = ex.events(p, [m_clean])
+        iterated = any(is_sym(c) and "deletion.elem1" in c.sx for c in p.pc)
+        if not iterated:
+            return And(not evs, Not(ex.deletion.has(s, True)))
+        ks = _kinds(evs)
+        if ks == ["drop"]:
+            return And(Eq(evs[0][1], m_clean), Or(is_gi, Not(wanted)))
+        if ks == ["fetch", "store", "drop"]:
+            f_ev = next(e for e in p.effects if e[0] == "fetch")
+            st_ev = next(e for e in p.effects if e[0] == "stored")
+            args_ok = all(f_ev[2].get(a) is ex.tokens[a] for a in ex.tokens)
+            return And(Not(is_gi), wanted, args_ok, st_ev[2] == ("fetched", f_ev[1]),
+                       *[Eq(e[1], m_clean) for e in evs])
+        return False
+    run_discharge(chk, eng, fc, "fetch-before-drop-one-drop-per-scheduled-name",
+                  "statement_num has no deletion entry => nothing happens; otherwise, for a generic element ds_name of "
+                  "deletion[statement_num]: a global input is dropped (one DROP TABLE IF EXISTS, nothing fetched); a result that is "
+                  "to be returned (return_only_persistent false, or ds_name persistent) is FIRST fetched (fetch_result with the "
+                  "caller's folder / structures / format), stored as results[ds_name], THEN dropped; any other result is dropped "
+                  "only; exactly one drop in every case, no other statement executed   [whole real function]",
+                  clean_paths, [], post_clean, N.executor, key_exec, site=False)
+
+    # ---- execute_queries, main loop: one iteration ------------------------------------------------------------------------------
+    def c_load_sched(e: Engine, **k_: Any) -> Any:
+        e.effects.append(("load_scheduled", k_))
+
+    def c_clean_sched(e: Engine, **k_: Any) -> Any:
+        e.effects.append(("cleanup_scheduled", k_))
+    eng.contracts[(EXE, "load_scheduled_datasets")] = c_load_sched
+    eng.contracts[(EXE, "cleanup_scheduled_datasets")] = c_clean_sched
+    ls_main = LoopStep(EXE, "execute_queries", 0)
+    ls_main.temps = ("_", "e", "mapped")  # type: ignore[attr-defined]
+    rname, sqlq = eng.sym_str("result_name"), eng.sym_str("sql_query")
+    state = {"conn": ex.conn, "statement_num": s, "result_name": rname, "sql_query": sqlq, "ds_analysis": ex.sched,
+             "path_dict": ex.path_dict, "dataframe_dict": ex.dataframe_dict, "input_datasets": ex.input_datasets,
+             "results": ex.results, "return_only_persistent": rop, **ex.tokens}
+
+    def post_main(p: PathResult, init: Dict[str, Any]) -> Any:
+        if p.kind != "return" or not isinstance(p.value, dict):
+            return False
+        evs = ex.events(p, [rname], sqlq)
+        if _kinds(evs) != ["load_scheduled", "create", "cleanup_scheduled"]:
+            return False
+        kl, kc = evs[0][1], evs[2][1]
+        same_l = all(kl.get(a) is state[a] for a in ("conn", "ds_analysis", "path_dict", "dataframe_dict", "input_datasets"))
+        same_c = all(kc.get(a) is state[a] for a in ("conn", "ds_analysis", "results", "output_folder", "output_datasets",
+                                                     "output_scalars", "representation", "output_format"))
+        return And(same_l, same_c, Eq(kl.get("statement_num"), s), Eq(kc.get("statement_num"), s),
+                   Eq(kc.get("return_only_persistent"), rop), Eq(evs[1][1], rname), frame(p, init, set()))
+    ob_main = step_ob(chk, eng, ls_main, state, fq, "statement-loop-step",
+                      "one iteration of the statement loop for ANY statement number k and ANY state: load_scheduled_datasets(k) "
+                      "with the caller's schedule / data sources, THEN exactly one statement CREATE TABLE \"<result_name>\" AS "
+                      "<sql_query>, THEN cleanup_scheduled_datasets(k) with the same schedule, the results dict, the caller's "
+                      "return_only_persistent / folder / format; nothing else is executed or changed",
+                      [], post_main, N.executor, key_exec)
+    if ls_main.ok and ls_main.outer_iter != "enumerate(queries, start=1)":
+        ob_main.status, ob_main.detail = UNDECIDED, f"statements are numbered by `{ls_main.outer_iter}`, expected enumerate(queries, start=1)"
+        decide_by_native(ob_main, N.executor, key_exec)
+
+    # ---- execute_queries, final loop: one iteration -----------------------------------------------------------------------------
+    ls_fin = LoopStep(EXE, "execute_queries", 1)
+    ls_fin.temps = ("_", "e", "should_include")  # type: ignore[attr-defined]
+    is_p = eng.sym_bool("is_persistent")
+    state_f = {"conn": ex.conn, "result_name": rname, "is_persistent": is_p, "results": ex.results,
+               "return_only_persistent": rop, **ex.tokens}
+    fin_paths: List[PathResult] = []
+
+    def post_fin(p: PathResult, init: Dict[str, Any]) -> Any:
+        if p.kind != "return" or not isinstance(p.value, dict):
+            return False
+        fin_paths.append(p)
+        evs = ex.events(p, [rname])
+        fire = And(Not(ex.results.has(rname, True)), Or(Not(rop), is_p))
+        if not evs:
+            return Not(fire)
+        if _kinds(evs) != ["fetch", "store"]:
+            return False
+        return And(fire, Eq(evs[0][1], rname), Eq(evs[1][1], rname))
+    step_ob(chk, eng, ls_fin, state_f, fq, "final-loop-step",
+            "one iteration of the final loop for ANY query (result_name, is_persistent) and ANY results: result_name is fetched "
+            "and stored iff it is not in results yet and (return_only_persistent is false or it is persistent); nothing is "
+            "dropped or created", [], post_fin, N.executor, key_exec)
+
+    # =====================================================================================================================
+    # (3) ghost history of a free name x over one statement
+    # =====================================================================================================================
+    f_h = fq
+    d = eng.decls
+    GI, PR, PX, INDB, READS = (d.const(f"script.{n_}", BOOL) for n_ in
+                               ("x_is_global_input", "x_is_produced", "x_is_persistent", "x_is_input_dataset", "k_reads_x"))
+    FIRST, LAST, PK, D_ = (d.const(f"script.{n_}", INT) for n_ in
+                           ("first_reader_of_x", "last_reader_of_x", "producer_of_x", "deletion_slot_of_x"))
+    want = Or(Not(rop), PX)
+    script = [Ge(s, 1), Implies(GI, Not(PR)), Implies(GI, And(Ge(FIRST, 1), Le(FIRST, LAST))),
+              Implies(And(READS, GI), And(Le(FIRST, s), Le(s, LAST))), Implies(PR, And(Ge(PK, 1), Le(PK, D_))),
+              Implies(And(READS, PR), And(Lt(PK, s), Le(s, D_))), Implies(READS, Or(GI, PR)),
+              Iff(Eq(rname, x), And(PR, Eq(PK, s)))]
+    sched = [Eq(ex.insertion.mult(s, x, True), b2i(And(GI, Eq(FIRST, s)))),
+             Eq(ex.deletion.mult(s, x, True), smt.Add(b2i(And(PR, Eq(D_, s))), b2i(And(GI, Eq(LAST, s))))),
+             Implies(Gt(ex.insertion.mult(s, x, True), 0), ex.insertion.has(s, True)),
+             Implies(Gt(ex.deletion.mult(s, x, True), 0), ex.deletion.has(s, True)),
+             Iff(ex.global_inputs.has(x, True), GI), Iff(ex.persistent.has(x, True), And(PR, PX)),
+             Iff(ex.input_datasets.has(x, True), INDB), Implies(PR, Not(INDB))]
+
+    Ghost = Dict[str, Any]
+
+    def J(g: Ghost, at: Any) -> Any:
+        return And(Eq(g["loads"], b2i(And(GI, INDB, Lt(FIRST, at)))),
+                   Eq(g["drops"], b2i(Or(And(GI, Lt(LAST, at)), And(PR, Lt(D_, at))))),
+                   Iff(g["live"], Or(And(GI, INDB, Lt(FIRST, at), Le(at, LAST)), And(PR, Lt(PK, at), Le(at, D_)))),
+                   Eq(g["fetches"], b2i(And(PR, Lt(D_, at), want))), Iff(g["inres"], And(PR, Lt(D_, at), want)),
+                   Not(g["bad"]))
+
+    def apply(g: Ghost, evs: Sequence[Event]) -> Ghost:
+        g = dict(g)
+        for kind, nm in evs:
+            if kind in ("load_scheduled", "cleanup_scheduled"):
+                continue
+            eqx = Eq(nm, x) if kind != "unrecognised-statement" else True
+            if kind == "load":
+                g["loads"], g["live"] = smt.Add(g["loads"], b2i(eqx)), Or(g["live"], eqx)
+            elif kind == "create":
+                g["bad"], g["live"] = Or(g["bad"], And(eqx, g["live"])), Or(g["live"], eqx)
+            elif kind == "fetch":
+                g["fetches"], g["bad"] = smt.Add(g["fetches"], b2i(eqx)), Or(g["bad"], And(eqx, Not(g["live"])))
+            elif kind == "drop":
+                g["drops"], g["live"] = smt.Add(g["drops"], b2i(eqx)), And(g["live"], Not(eqx))
+            elif kind == "store":
+                g["inres"] = Or(g["inres"], eqx)
+            else:
+                g["bad"] = True
+        return g
+
+    def iteration(g: Ghost, paths: Sequence[PathResult], names: Sequence[Any], extra: Sequence[Any] = ()) -> Ghost:
+        """Ghost state after ONE iteration: case split over the explored paths (their path conditions partition)."""
+        outs = [(And(*p.pc, *extra), apply(g, ex.events(p, names))) for p in paths if p.kind == "return"]
+        res: Ghost = {}
+        for fld in g:
+            cur = outs[-1][1][fld]
+            for cond, gg in reversed(outs[:-1]):
+                cur = Ite(cond, gg[fld], cur)
+            res[fld] = cur
+        return res
+
+    g0: Ghost = {"loads": d.const("ghost.loads_of_x", INT), "drops": d.const("ghost.drops_of_x", INT),
+                 "live": d.const("ghost.x_is_live", BOOL), "fetches": d.const("ghost.fetches_of_x", INT),
+                 "inres": d.const("ghost.x_in_results", BOOL), "bad": d.const("ghost.bad_event_on_x", BOOL)}
+    ok_paths = all(p.kind == "return" for p in load_paths + clean_paths)
+    ob_names = {"live": "every-table-read-is-live-when-the-statement-is-created",
+                "J": "history-invariant-preserved-by-one-statement",
+                "final": "after-the-last-statement-results-are-the-selected-assignments"}
+    if not ok_paths:
+        for nm in ob_names.values():
+            ob = chk.ob(f"{f_h}::ghost::{nm}", f_h, "ghost history obligation")
+            ob.status, ob.detail = UNDECIDED, "a path of the load / cleanup functions does not return normally"
+            decide_by_native(ob, N.executor, key_exec)
+        return
+    # iterations that concern x: the generic element IS x; the path conditions of an iteration hold under the schedule facts
+    it_load = [p for p in load_paths if any(is_sym(c) and "insertion.elem1" in c.sx for c in p.pc)]
+    it_clean = [p for p in clean_paths if any(is_sym(c) and "deletion.elem1" in c.sx for c in p.pc)]
+    results_link = [Iff(ex.results.has(x, True), g0["inres"])]
+    g1_it = iteration(g0, it_load, [m_load])
+    g1 = {fld: Ite(Eq(ex.insertion.mult(s, x, True), 1), g1_it[fld], g0[fld]) for fld in g0}
+    g2 = apply(g1, [("create", rname)])
+    g3_it = iteration(g2, it_clean, [m_clean])
+    g3 = {fld: Ite(Eq(ex.deletion.mult(s, x, True), 1), g3_it[fld], g2[fld]) for fld in g0}
+    hyp = script + sched + [J(g0, s), Eq(m_load, x), Eq(m_clean, x)] + results_link
+    # the partition of the path conditions must be exhaustive for the iteration that exists (else Ite's default is unsound)
+    cover_l = Or(*[And(*p.pc) for p in it_load])
+    cover_c = Or(*[And(*p.pc) for p in it_clean])
+
+    def solve(oid: str, clause: str, assumptions: Sequence[Any], goal: Any) -> Obligation:
+        ob = chk.ob(f"{f_h}::ghost::{oid}", f_h, clause)
+        r = core.run_smt(smt.query(d, list(eng.axioms) + list(assumptions) + [Not(goal)],
+                                   get=["statement_num", "script.first_reader_of_x", "script.last_reader_of_x",
+                                        "script.producer_of_x", "script.deletion_slot_of_x", "return_only_persistent"]),
+                         timeout=30, tag="c13-ghost")
+        ob.backend, ob.seconds = r.backend, r.seconds
+        if r.status == "unsat":
+            ob.status, ob.detail = DISCHARGED, "unsat"
+        elif r.status == "unknown":
+            ob.status, ob.detail = UNDECIDED, f"solver: {r.raw[:200]}"
+        else:
+            ob.status, ob.detail, ob.witness, ob.finding_key = REFUTED, f"counter-model {r.model}", {"model": r.model}, key_exec
+            found, detail, wit = N.executor()
+            if not found:
+                found, detail, wit = N.schedule()
+            ob.replayed, ob.replay_detail = bool(found), detail
+            if wit is not None:
+                ob.witness = wit
+        return ob
+    pre_txt = ("for a free name x and ANY statement number k, under the schedule contract of _ds_usage_analysis (x is in "
+               "insertion[k] exactly when x is a global input first read by k; in deletion[k] exactly when k is its deletion slot: "
+               "last reader, or producer when unread), the numbering facts of C12 (producer < every reader <= deletion slot; "
+               "first reader <= every reader <= last reader; result_name of statement k = x iff k produces x) and the history "
+               "invariant J(x, k) [loads = (input table first read before k), drops = (slot before k), live <=> loaded or produced "
+               "before k and not yet dropped, fetched / in results <=> selected result whose slot is before k, no bad event]; the "
+               "effects of the iterations are the ones extracted from the explored paths of the real functions: ")
+    # vacuity guards: the hypotheses are satisfiable in each interesting situation
+    covers = {"x-is-an-input-table-first-read-by-k": [GI, INDB, Eq(FIRST, s), READS, Lt(s, LAST)],
+              "x-is-an-input-table-last-read-by-k": [GI, INDB, Eq(LAST, s), READS, Lt(FIRST, s)],
+              "x-is-a-selected-result-whose-slot-is-k": [PR, Eq(D_, s), Lt(PK, s), READS, want],
+              "x-is-an-unread-intermediate-produced-by-k": [PR, Eq(D_, s), Eq(PK, s), Not(want)],
+              "x-is-produced-earlier-and-read-later": [PR, Lt(PK, s), Lt(s, D_)]}
+    for cname, extra in covers.items():
+        ob = chk.ob(f"{f_h}::ghost::cover::{cname}", f_h, f"cover: the hypotheses of the statement step are satisfiable when "
+                    f"{cname.replace('-', ' ')} (vacuity guard)")
+        r = core.run_smt(smt.query(d, list(eng.axioms) + hyp + extra), timeout=20, tag="c13-cover")
+        ob.backend, ob.seconds = r.backend, r.seconds
+        ob.status = DISCHARGED if r.status == "sat" else (core.FAULT if r.status == "unsat" else UNDECIDED)
+        ob.detail = r.status if r.status == "sat" else f"{r.status}: hypotheses contradictory - the step obligations would be vacuous"
+    solve("iterations-exhaustive", "the explored paths of one load iteration / one cleanup iteration cover every case (their path "
+          "conditions are exhaustive whenever the element is scheduled)",
+          hyp + [Or(Eq(ex.insertion.mult(s, x, True), 1), Eq(ex.deletion.mult(s, x, True), 1))],
+          And(Implies(Eq(ex.insertion.mult(s, x, True), 1), cover_l), Implies(Eq(ex.deletion.mult(s, x, True), 1), cover_c)))
+    solve(ob_names["live"], pre_txt + "if statement k reads x and x is a table (input dataset or produced), x is live after the "
+          "loads of k, i.e. when CREATE TABLE of k runs; and CREATE never hits a live table", hyp,
+          And(Implies(And(READS, Or(PR, And(GI, INDB))), g1["live"]), Not(g2["bad"])))
+    solve(ob_names["J"], pre_txt + "J(x, k + 1) holds after the loads, the CREATE and the cleanup of k - so x is loaded at most "
+          "once, dropped exactly once at its slot and never before a reader, fetched at most once and only while live (fetch "
+          "precedes drop)", hyp, J(g3, smt.Add(s, 1)))
+    # after the last statement n: every slot <= n
+    nn = d.const("script.number_of_statements", INT)
+    gF: Ghost = dict(g0)
+    fin_ok = [p for p in fin_paths if p.kind == "return"]
+    hyp_f = script[1:] + [J(g0, smt.Add(nn, 1)), Ge(nn, 1), Implies(GI, Le(LAST, nn)), Implies(PR, Le(D_, nn)),
+                          Iff(ex.results.has(rname, True), g0["inres"]), Eq(rname, x), PR, Iff(is_p, PX)]
+    if fin_ok:
+        gF = iteration(g0, fin_ok, [rname])
+    solve(ob_names["final"], "after the last statement n (every deletion slot <= n) J(x, n + 1) gives: x is in results <=> x is "
+          "produced and (return_only_persistent is false or x is persistent), fetched exactly once, dropped exactly once, not "
+          "live; and an iteration of the final loop on the query that produced x (is_persistent = the statement's persistence) "
+          "fetches nothing (it would fetch a dropped table) and changes nothing",
+          hyp_f, And(Iff(g0["inres"], want), Eq(g0["drops"], 1), Not(g0["live"]), Eq(g0["fetches"], b2i(want)),
+                     *[Eq(gF[fld], g0[fld]) if fld in ("loads", "drops", "fetches") else Iff(gF[fld], g0[fld]) for fld in g0]))
+    chk.assume("ghost store: CREATE TABLE \"n\" AS adds n, DROP TABLE IF EXISTS \"n\" removes n, a load adds n, fetch_result(n) "
+               "needs n; the DuckDB catalog is assumed to behave like this set (the bounded tier runs sampled scripts on the real "
+               "DuckDB); loaders and fetch_result are stand-ins recording their arguments")
+    chk.assume("statements executed are recognised by their text: exactly CREATE TABLE \"<name>\" AS <sql> and DROP TABLE IF EXISTS "
+               "\"<name>\" (any other text executed by these functions fails the obligation)")
+    chk.assume("failure paths (a statement or a load raising) are C16's subject: the connection stand-in never fails")
+
+
+# =====================================================================================================================
+# alignment: the numbering of ds_structure is the numbering of the transpiler's queries, on the same (sorted) script
+# =====================================================================================================================
+def ob_alignment(chk: Check) -> None:
+    TR = "duckdb_transpiler/Transpiler/__init__.py"
+    ft = F("SQLTranspiler.visit_Start", TR)
+    chk.under_contract(ft)
+    import _dagproof as DP
+    kinds = DP.statement_kinds(chk)
+    s = Sym()
+    eng = s.eng
+    ls = LoopStep(TR, "SQLTranspiler.visit_Start", 0)
+    name = eng.sym_str("assigned.name")
+
+    def stub(tag: str, ret: Any = None) -> Any:
+        def c(e: Engine, self_: Any, *a: Any, **k_: Any) -> Any:
+            e.effects.append((tag, a))
+            return ret(e, *a) if callable(ret) else ret
+        return c
+    try:
+        TCls = eng.lookup_global(TR, "SQLTranspiler")
+    except Exception as e:  # noqa: BLE001
+        ob = chk.ob(f"{ft}::found", ft, "SQLTranspiler present")
+        ob.status, ob.detail = UNDECIDED, f"{type(e).__name__}: {e}"
+        return
+    sqlv = eng.sym_str("sql.of.statement")
+    eng.contracts[DP.VISITOR] = stub("visit", sqlv)
+    for mname in ("visit_DPRuleset", "_visit_HRuleset", "_get_assignment_inputs", "_unqualify_join_columns"):
+        ok, fv = eng.class_attr(TCls, mname)
+        if ok and hasattr(fv, "rel"):
+            eng.contracts[(fv.rel, fv.qualname)] = stub(mname, (lambda e, *a: a[-1]) if mname == "_unqualify_join_columns" else Opaque(mname))
+    for kind in kinds:
+        child = ObjV(s.cls(kind), {"left": ObjV(s.cls("VarID"), {"value": name})})
+        queries: List[Any] = [("earlier",)]
+        in_scalars = eng.sym_bool("name_is_an_output_scalar")
+        osc = NameObjMap(eng, "output_scalars")
+        selfv = ObjV(TCls, {"output_scalars": osc, "current_assignment": Opaque("ca"), "inputs": Opaque("inputs"),
+                            "_join_alias_map": Opaque("jam"), "_consumed_join_aliases": Opaque("cja")})
+        is_stmt, is_pers = kind in DP.ASSIGN_KINDS, kind == "PersistentAssignment"
+
+        def post(p: PathResult, init: Dict[str, Any], is_stmt: bool = is_stmt, is_pers: bool = is_pers) -> Any:
+            if p.kind != "return" or not isinstance(p.value, dict):
+                return False
+            q = p.value.get("queries")
+            if not isinstance(q, list) or not q or q[0] != ("earlier",):
+                return False
+            new = q[1:]
+            if not is_stmt:
+                return not new
+            if len(new) != 1 or not isinstance(new[0], tuple) or len(new[0]) != 3 or new[0][2] is not is_pers:
+                return False
+            return Eq(new[0][0], name)
+        step_ob(chk, eng, ls, {"self": selfv, "child": child, "queries": queries}, ft, f"one-query-per-assignment::{kind}",
+                f"one iteration of SQLTranspiler.visit_Start's loop on a `{kind}` child from ANY queries list: " +
+                ("exactly one tuple (child.left.value, <sql>, is_persistent = " + str(is_pers) + ") is appended, earlier "
+                 "entries stay" if is_stmt else "nothing is appended") +
+                " - so the k-th query is the k-th (Persistent)Assignment child, the statement DAGAnalyzer.visit_Start numbers k, "
+                "and its persistence flag is the one the schedule's `persistent` list is built from",
+                [], post, N.executor, "execute_queries::numbering")
+    # run(): the same sorted script object reaches ds_structure and the transpiler
+    fr = F("run", "API/__init__.py")
+    chk.under_contract(fr)
+    ob = chk.ob(f"{fr}::schedule-and-queries-come-from-the-same-sorted-script", fr,
+                "in run(): `ast` is assigned once; DAGAnalyzer.create_dag(ast) (which sorts ast.children in place) precedes both "
+                "DAGAnalyzer.ds_structure(ast) and transpiler.transpile(ast); between them `ast` is only deep-copied (semantic "
+                "analysis runs on a copy); execute_queries receives exactly these two results - so the statement numbers of "
+                "the schedule and of the queries refer to the same topologically sorted, single-assignment statement list")
+    ob.backend = "ast-dataflow"
+    run = find_def("API/__init__.py", "run")
+    if not isinstance(run, ast.FunctionDef):
+        ob.status, ob.detail = UNDECIDED, "run not found"
+        return
+    uses: List[Tuple[int, str]] = []
+    for c in ast.walk(run):
+        if isinstance(c, ast.Call) and any(isinstance(a, ast.Name) and a.id == "ast" for a in c.args):
+            uses.append((c.lineno, ast.unparse(c.func)))
+    uses.sort()
+    assigns = [n_ for n_ in ast.walk(run) if isinstance(n_, ast.Name) and n_.id == "ast" and isinstance(n_.ctx, ast.Store)]
+    names = [u for _l, u in uses]
+    want = ["DAGAnalyzer.create_dag", "copy.deepcopy", "DAGAnalyzer.ds_structure", "transpiler.transpile"]
+    probs = []
+    if names != want:
+        probs.append(f"calls receiving `ast`: {names}, expected {want}")
+    if len(assigns) != 1:
+        probs.append(f"`ast` assigned {len(assigns)} times")
+    eq = [c for c in ast.walk(run) if isinstance(c, ast.Call) and ast.unparse(c.func) == "execute_queries"]
+    kw = {k_.arg: ast.unparse(k_.value) for k_ in eq[0].keywords} if len(eq) == 1 else {}
+    if kw.get("queries") != "queries" or kw.get("ds_analysis") != "ds_analysis":
+        probs.append(f"execute_queries receives queries={kw.get('queries')}, ds_analysis={kw.get('ds_analysis')}")
+    stores = {}
+    for n_ in ast.walk(run):
+        if isinstance(n_, ast.Assign) and len(n_.targets) == 1 and isinstance(n_.targets[0], ast.Name) \
+                and n_.targets[0].id in ("queries", "ds_analysis"):
+            stores.setdefault(n_.targets[0].id, []).append(ast.unparse(n_.value))
+    if stores != {"ds_analysis": ["DAGAnalyzer.ds_structure(ast)"], "queries": ["transpiler.transpile(ast)"]}:
+        probs.append(f"assignments {stores}")
+    tp = find_def(TR, "SQLTranspiler.transpile")
+    if tp is None or "queries = self.visit(node)" not in ast.unparse(tp) or \
+            "[(name, _inline_period_parse_literals(sql), p) for name, sql, p in queries]" not in ast.unparse(tp):
+        probs.append("transpile no longer maps visit_Start's queries one to one")
+    if probs:
+        ob.status, ob.detail = UNDECIDED, "; ".join(probs)
+        decide_by_native(ob, N.executor, "execute_queries::numbering")
+    else:
+        ob.status, ob.detail = DISCHARGED, f"calls on ast in order: {names}"
+
+
+def run(chk: Check) -> None:
+    import time
+    t0 = time.time()
+    ob_usage_analysis(chk)
+    ob_executor(chk)
+    ob_alignment(chk)
+    chk.extra["deductive_tier_seconds"] = round(time.time() - t0, 1)
+    chk.notes.append("META-ARGUMENTS (stated, not machine-checked): induction over the iteration sequences - (a) each loop of "
+                     "_ds_usage_analysis: the step obligations re-establish the pointwise invariants, the initial-state "
+                     "obligation gives them before the first iteration, the ghost values unfold to 'x is read by some "
+                     "statement', 'greatest / least reader', 'x is produced' by the inductive definition of membership in the "
+                     "processed prefix; (b) the lists insertion[k] / deletion[k]: an iteration on an element other than x does "
+                     "not touch the ghost values of x (every event names its element), so the effect of the loop on x is the "
+                     "effect of the iterations whose element is x - exactly one when x is scheduled there (multiplicity 1); "
+                     "(c) the statements 1..n: J(x, 1) holds trivially, the statement step gives J(x, k + 1), the final "
+                     "obligation reads the result off J(x, n + 1).  PRECONDITIONS taken from C12 (proved there, or listed there "
+                     "as bounded): the statement list handed to ds_structure / transpile is topologically sorted and "
+                     "single-assignment, and the dependency records of the second visit equal those of the first "
+                     "(position independence).")
+    chk.trust("vc.pycoll container semantics (dict / set / list / defaultdict operations as SMT array reads and stores; a list "
+              "is its multiset of elements); vc.pyloop extraction of the loop bodies")
